@@ -111,6 +111,16 @@ Section L2.
   Definition spec_session_key (first join_nonce net_id dev_nonce : N) (appkey : list N) : list N :=
     enc appkey ([first] ++ le_bytes 3 join_nonce ++ le_bytes 3 net_id ++ le_bytes 2 dev_nonce ++ [0;0;0;0;0;0;0]).
 
+
+  (* a received JoinAccept is authentic for AppKey iff it has one of the two legal sizes, MHDR = JoinAccept / major 0, and after
+     AES-ENCRYPTING the body in ECB (the network used decrypt) its last four bytes are cmac(AppKey, everything before)[0..3] *)
+  Definition spec_ja_clear (bs key : list N) : list N := [nthN bs 0] ++ ecb (enc key) (skipn 1 bs).
+  Definition spec_ja_accepts (bs key : list N) : bool :=
+    (Nat.eqb (length bs) 17 || Nat.eqb (length bs) 33)
+    && (nthN bs 0 mod 4 =? 0) && (nthN bs 0 / 32 =? 1)
+    && list_eqb (skipn (length bs - 4) (spec_ja_clear bs key))
+                (firstn 4 (mac key (firstn (length bs - 4) (spec_ja_clear bs key)))).
+
   (* ---------------------------------------------------------------- decoding side *)
   (* structural well-formedness of a received data frame *)
   Definition wf_wire (bs : list N) : bool :=
